@@ -133,6 +133,9 @@ def run_op(op):
             else:
                 m = UBXMessage(bytes([op["cls"]]), bytes([op["id"]]), op["mode"], parsebitfield=op.get("pbf", 1), **kw)
             return digest(m)
+        if k == "construct_names":
+            m = UBXMessage(op["cls"], op["id"], op["mode"])
+            return digest(m)
         if k == "config":
             items = [tuple(x) if isinstance(x, list) else x for x in op["items"]]
             m = getattr(UBXMessage, op["fn"])(op["a"], op["b"], items)
@@ -388,6 +391,30 @@ def attrs(case, cap):
             except Exception:  # noqa: BLE001 - not copyable: nothing to probe
                 continue
         before = m.serialize()
+        # looking at a message does not change it: after hashing it, comparing it, using it as a dictionary key, copying and pickling
+        # it, listing its attributes ... it prints, serialises and lists exactly as before
+        try:
+            shown = (str(m), repr(m), repr(sorted(vars(m))), m.serialize())
+        except Exception:  # noqa: BLE001 - messages that cannot be printed are C08's business
+            shown = None
+        if shown is not None:
+            import copy as _copy
+            import pickle as _pickle
+
+            for oname, ofn in (("hash", lambda: hash(m)), ("dict-key", lambda: {m: 1}[m]), ("set", lambda: m in {m}), ("eq", lambda: (m == m, m != m, m == 1)),
+                               ("bool-len", lambda: (bool(m), getattr(m, "__len__", lambda: 0)())), ("copy", lambda: _copy.copy(m)), ("deepcopy", lambda: _copy.deepcopy(m)),
+                               ("pickle", lambda: _pickle.dumps(m)), ("dir-vars", lambda: (dir(m), vars(m), m.__dict__.keys())), ("format", lambda: (format(m), "%s" % (m,), f"{m!r}"))):
+                try:
+                    ofn()
+                except Exception:  # noqa: BLE001 - an observation that is not supported is not a change
+                    pass
+                try:
+                    now = (str(m), repr(m), repr(sorted(vars(m))), m.serialize())
+                except Exception as ex:  # noqa: BLE001
+                    now = ("raised:" + type(ex).__name__,)
+                ev.append(["observe", oname, "unchanged" if now == shown else "changed", 1 if now[-1:] == shown[-1:] else 0, cap.size()])
+                if now != shown:
+                    break
         d = [k for k in vars(m)]
         public = [k for k in d if not k.startswith("_")]
         private = [k for k in d if k.startswith("_")]
